@@ -192,9 +192,32 @@ type Reply struct {
 	Wrote     bool   // false when the handler never wrote anything (recorder default 200)
 }
 
+// failWriter makes the n-th Write call (1-based) and every later one fail without writing.
+type failWriter struct {
+	*httptest.ResponseRecorder
+	failAt, n int
+}
+
+var ErrWriteFailed = fmt.Errorf("injected response-writer failure")
+
+func (f *failWriter) Write(b []byte) (int, error) {
+	f.n++
+	if f.n >= f.failAt {
+		return 0, ErrWriteFailed
+	}
+	return f.ResponseRecorder.Write(b)
+}
+
 // Do runs one request through the real router with panic capture.
-func (w *World) Do(req *http.Request) *Reply {
+func (w *World) Do(req *http.Request) *Reply { return w.DoFail(req, 0) }
+
+// DoFail is Do with a ResponseWriter whose failAt-th Write call fails (0 = never).
+func (w *World) DoFail(req *http.Request, failAt int) *Reply {
 	rec := httptest.NewRecorder()
+	var rw http.ResponseWriter = rec
+	if failAt > 0 {
+		rw = &failWriter{ResponseRecorder: rec, failAt: failAt}
+	}
 	before := w.Store.CallCount()
 	rep := &Reply{}
 	func() {
@@ -204,7 +227,7 @@ func (w *World) Do(req *http.Request) *Reply {
 				rep.PanicSite = panicSite()
 			}
 		}()
-		w.Handler.ServeHTTP(rec, req)
+		w.Handler.ServeHTTP(rw, req)
 	}()
 	rep.Status = rec.Code
 	rep.Header = rec.Header()
